@@ -1281,6 +1281,9 @@ var (
 	// leaf-level interleaving: strict alternation between the two oldest runnable goroutines / always the youngest
 	alternate = []int{0, 1, 0, 1, 0, 1, 0, 1, 0, 1, 0, 1, 0, 1, 0, 1}
 	youngest  = []int{0, 7, 7, 7, 7, 7, 7, 7, 7, 7, 7, 7, 7, 7, 7, 7}
+	// the parent parks before its next leaf, the child starts and performs ONE leaf, then the parent performs one, … (a child
+	// that looked before the parent acted, and looks again afterwards)
+	childFirst = []int{0, 1, 1, 0, 1, 1, 0, 1, 1, 0, 1, 1, 0, 1, 1, 0}
 )
 
 type rgen struct {
@@ -1351,6 +1354,13 @@ func (x *rgen) forest(size int) []*node {
 		t := x.term(s)
 		r = append(r, t)
 		size -= s
+		// related on purpose: the child asks for a name before and after the parent defines it
+		if (t.op == "fork" || t.op == "go") && x.r.Intn(4) == 0 {
+			n := core.Pick(x.r, []string{"A", "B"})
+			t.kids = append(append([]*node{{op: "load", k: n}}, t.kids...), &node{op: "load", k: n})
+			r = append(r, &node{op: "deftype", k: n})
+			size -= 3
+		}
 		// related on purpose: the parent changes the same variable / pushes / defines right after starting a goroutine
 		if (t.op == "fork" || t.op == "go") && x.last != "" && x.r.Intn(2) == 0 {
 			x.val++
@@ -1422,7 +1432,7 @@ func genShapes(g *core.G, hi *[]string) {
 		t := number(wrap(clone(f)), &next)
 		if hasSpawn(t) {
 			emitProg(g, t, eager)
-			emitInter(g, t, alternate)
+			emitInter(g, t, alternate, childFirst)
 			// every 7th goroutine-starting shape once more among goroutines with 7-digit ids (emitted together, later)
 			if count++; count%7 == 0 {
 				*hi = append(*hi, "progs "+schedStr(eager)+" "+t.sexp().String(), "progi "+schedStr(alternate)+" "+t.sexp().String())
@@ -1453,6 +1463,72 @@ func genShapes(g *core.G, hi *[]string) {
 					emit([]*node{leafN("set", "b"), scope(outer, inner), leafN("get", "a"), leafN("get", "b")})
 					inner2 := append(append(append([]*node{}, prep...), scope(kind, act)), scope("go", shapeLook()))
 					emit([]*node{scope(outer, []*node{scope("doctx", inner2)}), {op: "obs"}})
+				}
+			}
+		}
+	}
+}
+
+// genLateDefs: the history "a derived context looks a name up and MISSES, then an ancestor defines the name, then the derived
+// context looks again" (the parent's definitions are visible to the child also when the child has asked before: a miss is
+// cached as a negative entry in the ASKING context's own loader and must not end a later search).  The child is a goroutine
+// (Fork, Go), possibly working in a context derived once more (DoWithParent, DoWithContext, DoWithLoader, Do, a nested
+// Fork/Go), so that the parent can act while the child's context is alive; every program runs under EVERY leaf-level
+// interleaving prefix of length 5 (thorough: 7) over 3 (4) choices — among them the orders miss / define / look again.
+func genLateDefs(g *core.G) {
+	ld := func(k string) *node { return leafN("load", k) }
+	df := func(k string) *node { return leafN("deftype", k) }
+	sc := func(kind string, body ...*node) *node { return &node{op: kind, kids: body} }
+	wrappers := []func(body []*node) *node{
+		func(b []*node) *node { return sc("fork", b...) },
+		func(b []*node) *node { return sc("go", b...) },
+		func(b []*node) *node { return sc("fork", sc("doparent", b...)) },
+		func(b []*node) *node { return sc("go", sc("doparent", b...)) },
+		func(b []*node) *node { return sc("fork", sc("doctx", b...)) },
+		func(b []*node) *node { return sc("fork", sc("doloader", b...)) },
+		func(b []*node) *node { return sc("fork", sc("fork", b...)) },
+		func(b []*node) *node { return sc("go", sc("go", b...)) },
+		func(b []*node) *node { return sc("fork", sc("go", sc("doparent", b...))) },
+		func(b []*node) *node { return sc("fork", sc("do", b...)) },
+		func(b []*node) *node { return sc("doctx", sc("fork", b...)) },
+	}
+	bodies := [][]*node{
+		{ld("A"), ld("A")},
+		{ld("A"), {op: "obs"}, ld("A"), ld("B")},
+	}
+	tails := [][]*node{
+		{df("A")},
+		{ld("A"), df("A"), ld("A")},
+		{sc("doloader", df("A")), df("B")},
+	}
+	length, width := 5, 3
+	if g.Thorough() {
+		length, width = 7, 4
+	}
+	var scheds [][]int
+	var rec func(prefix []int)
+	rec = func(prefix []int) {
+		if len(prefix) == length {
+			scheds = append(scheds, append([]int(nil), prefix...))
+			return
+		}
+		for d := 0; d < width; d++ {
+			rec(append(prefix, d))
+		}
+	}
+	rec(nil)
+	for wi, w := range wrappers {
+		for bi, b := range bodies {
+			for ti, tl := range tails {
+				// quick tier: every wrapper with the plain body and tail, the other bodies/tails with the first four wrappers
+				if !g.Thorough() && (bi > 0 || ti > 0) && wi >= 4 {
+					continue
+				}
+				next := 0
+				t := number(wrap(clone(append([]*node{w(b)}, tl...))), &next)
+				emitProg(g, t, eager, delayed)
+				for _, s := range scheds {
+					g.Emit("progi " + schedStr(s) + " " + t.sexp().String())
 				}
 			}
 		}
@@ -1519,7 +1595,7 @@ func gen(g *core.G) {
 			t := number(wrap(f), &next)
 			if hasSpawn(t) {
 				emitProg(g, t, eager, delayed)
-				emitInter(g, t, alternate)
+				emitInter(g, t, alternate, childFirst)
 			} else {
 				emitProg(g, t)
 			}
@@ -1528,6 +1604,8 @@ func gen(g *core.G) {
 	// 1b. state shapes × scope kinds × child actions × observers
 	var hi []string
 	genShapes(g, &hi)
+	// 1c. a derived context misses a name, an ancestor defines it, the derived context looks again
+	genLateDefs(g)
 	// 2. random programs of size 12 (and a few larger) under random oracles
 	x := &rgen{r: g.Rng}
 	for i := 0; i < 2500*g.Scale; i++ {
@@ -1555,7 +1633,7 @@ func gen(g *core.G) {
 		}
 		emitProg(g, t, ss...)
 		if hasSpawn(t) {
-			cs := [][]int{alternate}
+			cs := [][]int{alternate, childFirst}
 			for k := 0; k < 2; k++ {
 				c := make([]int, 8+x.r.Intn(40))
 				for j := range c {
